@@ -488,17 +488,18 @@ def plan(tier, master):
         runs.append({'kind': 'stage', 'n_chunks': 3, 'lo': k, 'hi': k + 25,
                      'seed': kernel.run_seed(PROP, master, f'triple-{k // 500}')})
     sweeps = [(0, 0, 'first')] if tier == 'quick' else \
-        [(p, d, o) for p in range(6) for d in (0, 1) for o in ('first', 'seeded')]
+        [(p, d, o) for p in range(4) for d in (0, 1) for o in ('first', 'seeded')]
     for (p, d, o) in sweeps:
         for lo in range(0, 900, 15):
             runs.append({'kind': 'sweep', 'seed': kernel.run_seed(PROP, master, f'sweep-{p}'),
                          'dir': d, 'occ': o, 'lo': lo, 'hi': lo + 15, 'dense': p % 2 == 0})
-    n_jobsets = 64 if tier == 'quick' else 3000     # x SCHEDULES_PER_JOBSET simulated runs
-    per = 2
+    n_jobsets = 64 if tier == 'quick' else 2000     # x SCHEDULES_PER_JOBSET simulated runs
+    per = 1 if tier == 'quick' else 2
+    line = []
     for i in range(0, n_jobsets, per):
-        runs.append({'kind': 'line', 'seeds': [kernel.run_seed(PROP, master, i + j)
+        line.append({'kind': 'line', 'seeds': [kernel.run_seed(PROP, master, i + j)
                                                for j in range(per)]})
-    return runs
+    return line + runs          # the longest runs are dispatched first
 
 
 def warmup():
@@ -568,7 +569,7 @@ def describe(tier, agg):
                                    'at the first (thorough: also a seeded later) occurrence of '
                                    'every source line reached by the parked worker, the other '
                                    'worker running to completion meanwhile (quick: 1 job pair, '
-                                   'one direction; thorough: 6 pairs, both directions)',
+                                   'one direction; thorough: 4 pairs, both directions)',
             'sweep_static_lines': sorted(agg['sets'].pop('sweep_static_lines', set())),
             'distinct_interleavings': len(agg['sets'].get('interleavings', ())),
             'distinct_coresidence_pairs': len(agg['sets'].get('coresidence_pairs', ())),
